@@ -21,7 +21,7 @@ OPT_NOTE = ("optimiser model (coq/model/Optimiser.v) replayed bit-for-bit agains
 PROPS = {
     "C09": dict(props_file="props/C09.v", engines=[("cli", dict(quick=4, thorough=60)), ("opt", dict(focus="C06", quick=120, thorough=3000))],
                 design="DESIGN.md section 4 C09"),
-    "C10": dict(props_file="props/C10.v", needs_gen=True, engines=[("cli", dict(quick=5, thorough=80)), ("tables", dict(groups=False, labels=True))],
+    "C10": dict(props_file="props/C10.v", needs_gen=True, engines=[("cli", dict(quick=10, thorough=120)), ("tables", dict(groups=False, labels=True))],
                 design="DESIGN.md section 4 C10"),
     "C11": dict(props_file="props/C11.v", needs_gen=True, engines=[("geom", dict(quick=[("C11", 4000)], thorough=[("C11", 200000)])), ("cli", dict(quick=3, thorough=40))],
                 design="DESIGN.md section 4 C11"),
